@@ -36,7 +36,7 @@ def explore(expand_fn, initial_canon, max_depth, max_states=None, time_budget=No
     depth = 0
     while frontier and depth < max_depth:
         jobs = [(frontier[i:i + chunk], extra) for i in range(0, len(frontier), chunk)]
-        outs = pool.pmap(expand_fn, jobs)
+        outs = pool.pmap(expand_fn, jobs, hermetic=False)   # every history is replayed on fresh objects anyway
         nxt = []
         for out in outs:
             for hist, succs in out:
